@@ -76,6 +76,15 @@ TablesDoc(names, nrows) ==
    rows |-> [j \in 1..(nrows * Len(names)) |->
                [t |-> ((j - 1) % Len(names)) + 1, cells |-> <<NatStr(j), IF j % 2 = 0 THEN <<"q", SP>> ELSE <<>> >>]]]
 
+(* ---- enumtables: an enum column in one table and a same-named numeric column in another ---- *)
+EnumTablesDoc(nr) ==
+  [pairs |-> <<>>,
+   enums |-> <<[name |-> EName, labels |-> ELabels]>>,
+   structs |-> << [name |-> <<"O","B","S">>, cols |-> <<Col(<<"s","t">>, EName, 0, NotChar), ColI(<<"n">>)>>],
+                  [name |-> <<"C","N","T">>, cols |-> <<ColI(<<"s","t">>), Col(<<"q">>, KDouble, 0, NotChar)>>] >>,
+   rows |-> [j \in 1..(2 * nr) |-> IF j % 2 = 1 THEN [t |-> 1, cells |-> <<ELabels[((j \div 2) % 2) + 1], NatStr(j)>>]
+                                     ELSE [t |-> 2, cells |-> <<NatStr(j + 40), FltVals[((j \div 2) % 2) + 1]>>]]]
+
 (* ---- headers: 0..2 pairs, value texts over a small alphabet ---- *)
 HAlpha == {"a", SP, ";", "{", "}"}
 HeaderDoc(v, two) ==
@@ -112,6 +121,8 @@ Init ==
      /\ \E n \in 1..MaxCols : \E ks \in [1..n -> Kinds12] : \E nr \in 0..2 : Gen("types", TypesDoc(ks, nr), TRUE)
   \/ /\ "tables" \in Families
      /\ \E ns \in NameSets : \E nr \in 0..2 : Gen("tables", TablesDoc(ns, nr), TRUE)
+  \/ /\ "tables" \in Families
+     /\ \E nr \in 0..2 : Gen("enumtables", EnumTablesDoc(nr), TRUE)
   \/ /\ "headers" \in Families
      /\ \E v \in SeqsUpTo(HAlpha, 3) : \E two \in BOOLEAN : HeaderValueOK(v) /\ Gen("headers", HeaderDoc(v, two), TRUE)
   \/ /\ "witness" \in Families
